@@ -217,6 +217,9 @@ impl Receiver<TerminationMessage> {
     /// `recv().await` on the signal channel: returns once a termination signal (or the closing of the channel) arrived
     #[verifier::external_body]
     pub fn recv(&self, Tracked(tr): Tracked<&mut Trace>) -> (r: std::result::Result<TerminationMessage, RecvError>)
+        requires
+            // once a termination signal has been received the engine never sits down to wait for another one
+            /*[C10.signal]*/ !old(tr).term_seen,
         ensures *final(tr) == (Trace { awaited_signal: true, term_seen: true, ..*old(tr) }),
     { unimplemented!() }
 }
